@@ -1,6 +1,6 @@
 (* Properties_C12.v — obligations of property C12 (every reported clock time is the broadcast UTC
    instant shifted by the offset). *)
-Require Import ObsRun Lemmas_Callbacks Lemmas_LeafCt.
+Require Import ObsRun Lemmas_Callbacks Lemmas_Leaf_C12.
 Local Open Scope Z_scope.
 
 (* For every reachable state and every call: a 4A group (B/4096 = 4, version bit 0) with
